@@ -1204,7 +1204,11 @@ func (r condition) string() string {
 	// begin default presentation
 	// handler ...
 	var raw string
-	if meth := getStringer(r.ex); meth != nil {
+	if stk, ok := stackTypeAliasConverter(r.ex); ok {
+		raw = stk.String()
+	} else if cnd, ok := conditionTypeAliasConverter(r.ex); ok {
+		raw = cnd.String()
+	} else if meth := getStringer(r.ex); meth != nil {
 		raw = meth()
 	} else {
 		raw = primitiveStringer(r.ex)
